@@ -105,12 +105,15 @@ def main(argv=None):
     findings, _fixed = core.load_known()
     open_keys = dict((f['key'], f) for f in findings if f['pid'] == pid)
     seen_known = {}
+    dis_ids = set(id(c) for c in dis)
 
     def report_oracle(case, why):
         nonlocal nviol
         key = case.get('key') or (drv.fingerprint(case)
                                   if hasattr(drv, 'fingerprint') else None)
-        if key in open_keys:
+        # an instance of a listed finding only if the faithful model predicts
+        # exactly what the implementation did on this case (the tie holds)
+        if key in open_keys and id(case) not in dis_ids:
             seen_known[key] = open_keys[key]
             return
         small = drv.shrink(case) if hasattr(drv, 'shrink') else case
